@@ -28,16 +28,25 @@ structure IntScan where
   consumed : Nat     -- bytes up to the end of the digit run
   deriving Repr, DecidableEq
 
+/-- `[+-]? digit+` at the very start of `s`: sign, magnitude, bytes used; `none` = no digits -/
+def scanBody (s : Bytes) : Option (Bool × Nat × Nat) :=
+  match s with
+  | 45 :: t =>
+    let ds := t.takeWhile isDigit
+    if ds.length = 0 then none else some (true, digitsVal ds, 1 + ds.length)
+  | 43 :: t =>
+    let ds := t.takeWhile isDigit
+    if ds.length = 0 then none else some (false, digitsVal ds, 1 + ds.length)
+  | t =>
+    let ds := t.takeWhile isDigit
+    if ds.length = 0 then none else some (false, digitsVal ds, ds.length)
+
 /-- longest prefix `isspace* [+-]? digit+`; `none` = no conversion -/
 def scanInt (s : Bytes) : Option IntScan :=
-  let ws := s.takeWhile isSpace
-  let s1 := s.drop ws.length
-  let (neg, sgn, s2) : Bool × Nat × Bytes := match s1 with
-    | 45 :: t => (true, 1, t)
-    | 43 :: t => (false, 1, t)
-    | t => (false, 0, t)
-  let ds := s2.takeWhile isDigit
-  if ds.isEmpty then none else some ⟨neg, digitsVal ds, ws.length + sgn + ds.length⟩
+  let s1 := s.dropWhile isSpace
+  match scanBody s1 with
+  | none => none
+  | some (neg, mag, k) => some ⟨neg, mag, (s.length - s1.length) + k⟩
 
 /-- the exact integer denoted by the text under the strtoll grammar -/
 def IntScan.value (r : IntScan) : Int := if r.neg then -(r.mag : Int) else r.mag
